@@ -1,0 +1,103 @@
+//go:build verif
+
+// Contracts for control regions and gates (read as text by /verif's govc; comment-only).
+// The specification is the property statement: the gate in control is the open one
+// with the highest authority, ties broken by earliest open (smallest position).
+
+package control
+
+//@ pure func (r Resource) ChannelKey() channel.Key
+//@ inline func (g *Gate[R]) state() *State
+//@ pure func (g *Gate[R]) Subject() control.Subject
+//@ pure func (r *region[R]) shouldBeInControl(candidate *Gate[R]) bool
+
+//@ # g does not beat c in the order (authority, then earlier open)
+//@ spec func lexle[R Resource](g *Gate[R], c *Gate[R]) bool =
+//@   g.authority < c.authority || (g.authority == c.authority && g.position >= c.position)
+
+//@ # representation invariant of a region
+//@ spec func RI[R Resource](r *region[R]) bool =
+//@   r.gates != nil && r.controller != nil &&
+//@   (forall g *Gate[R] :: __in(r.gates, g) ==> g != nil && __alloc(g) && g.region == r && g.position < r.counter) &&
+//@   (forall a *Gate[R], b *Gate[R] :: __in(r.gates, a) && __in(r.gates, b) && a != b ==> a.position != b.position && a.subject.Key != b.subject.Key) &&
+//@   ((r.curr == nil) == (forall g *Gate[R] :: !__in(r.gates, g))) &&
+//@   (r.curr != nil ==> __in(r.gates, r.curr) && (forall g *Gate[R] :: __in(r.gates, g) ==> lexle(g, r.curr)))
+
+//@ spec func stateOf[R Resource](g *Gate[R], s *State) bool =
+//@   s != nil && s.Subject == g.subject && s.Authority == g.authority && s.Resource == g.region.resource.ChannelKey()
+
+//@ func (r *region[R]) open(cfg GateConfig[R]) (g *Gate[R], t Transfer, err error)
+//@   tparams R Resource
+//@   requires RI(r) && cfg.ErrIfControlled != nil && cfg.ErrOnUnauthorizedOpen != nil && r.counter < 18446744073709551615
+//@   ensures  RI(r)
+//@   ensures  err != nil ==> g == nil && r.curr == old(r.curr) && (forall x *Gate[R] :: __in(r.gates, x) == old(__in(r.gates, x)))
+//@   ensures  err == nil ==> g != nil && !old(__in(r.gates, g)) && __in(r.gates, g) && (forall x *Gate[R] :: x != g ==> __in(r.gates, x) == old(__in(r.gates, x)))
+//@   ensures  err == nil ==> g.authority == cfg.Authority && g.subject == cfg.Subject && g.position == old(r.counter) && g.region == r
+//@   # the new gate takes control iff nobody held it or its authority is strictly higher
+//@   ensures  err == nil ==> (r.curr == g) == (old(r.curr) == nil || cfg.Authority > old(r.curr.authority))
+//@   ensures  err == nil && r.curr != g ==> r.curr == old(r.curr) && t.From == nil && t.To == nil
+//@   ensures  err == nil && r.curr == g ==> stateOf(g, t.To) && ((t.From == nil) == (old(r.curr) == nil)) && (old(r.curr) != nil ==> stateOf(old(r.curr), t.From))
+//@   # existing gates are not touched
+//@   ensures  forall x *Gate[R] :: old(__in(r.gates, x)) ==> x.authority == old(x.authority) && x.position == old(x.position) && x.subject == old(x.subject) && x.region == old(x.region)
+//@   modifies r, r.gates
+//@   loop 0 invariant forall x *Gate[R] :: __seen(x) ==> x.subject.Key != cfg.Subject.Key
+
+//@ spec func sameRegions[R Resource](a []*region[R], b []*region[R]) bool = len(a) == len(b) && (forall i int :: 0 <= i && i < len(a) ==> a[i] == b[i])
+//@ spec func removedAt[R Resource](a []*region[R], b []*region[R], k int) bool =
+//@   0 <= k && k < len(b) && len(a) == len(b)-1 &&
+//@   (forall i int :: 0 <= i && i < k ==> a[i] == b[i]) && (forall i int :: k <= i && i < len(a) ==> a[i] == b[i+1])
+
+//@ # remove deletes only an empty region, and exactly that one (first occurrence); other regions keep their order
+//@ func (c *Controller[R]) remove(r *region[R])
+//@   tparams R Resource
+//@   requires r != nil
+//@   ensures  len(r.gates) > 0 ==> sameRegions(c.regions, old(c.regions))
+//@   ensures  sameRegions(c.regions, old(c.regions)) || (exists k int :: old(c.regions)[k] == r && removedAt(c.regions, old(c.regions), k) && (forall j int :: 0 <= j && j < k ==> old(c.regions)[j] != r))
+//@   ensures  len(r.gates) == 0 && sameRegions(c.regions, old(c.regions)) ==> (forall j int :: 0 <= j && j < len(c.regions) ==> c.regions[j] != r)
+//@   modifies &c.regions
+//@   loop 0 invariant forall j int :: 0 <= j && j < i ==> c.regions[j] != r
+//@   loop 0 invariant sameRegions(c.regions, old(c.regions))
+
+//@ func (r *region[R]) release(g *Gate[R]) (res R, transfer Transfer)
+//@   tparams R Resource
+//@   requires RI(r) && g != nil && g.region == r
+//@   ensures  RI(r)
+//@   ensures  !__in(r.gates, g) && (forall x *Gate[R] :: x != g ==> __in(r.gates, x) == old(__in(r.gates, x)))
+//@   ensures  old(r.curr) != g ==> r.curr == old(r.curr) && transfer.From == nil && transfer.To == nil
+//@   ensures  old(r.curr) == g ==> stateOf(g, transfer.From)
+//@   ensures  old(r.curr) == g && r.curr == nil ==> transfer.To == nil
+//@   ensures  old(r.curr) == g && r.curr != nil ==> stateOf(r.curr, transfer.To)
+//@   ensures  forall x *Gate[R] :: __alloc(x) ==> x.authority == old(x.authority) && x.position == old(x.position) && x.subject == old(x.subject) && x.region == old(x.region)
+//@   modifies &r.curr, r.gates, r.controller
+//@   loop 0 modifies &r.curr
+//@   loop 0 invariant r.curr == nil ==> (forall x *Gate[R] :: !__seen(x)) && transfer.To == nil
+//@   loop 0 invariant r.curr != nil ==> __seen(r.curr) && (forall x *Gate[R] :: __seen(x) ==> lexle(x, r.curr)) && stateOf(r.curr, transfer.To)
+//@   loop 0 invariant stateOf(g, transfer.From)
+
+//@ func (r *region[R]) update(g *Gate[R], auth control.Authority) (t Transfer)
+//@   tparams R Resource
+//@   requires RI(r) && g != nil && g.region == r && __in(r.gates, g)
+//@   ensures  RI(r)
+//@   ensures  g.authority == auth
+//@   ensures  forall x *Gate[R] :: __in(r.gates, x) == old(__in(r.gates, x))
+//@   ensures  forall x *Gate[R] :: __alloc(x) && x != g ==> x.authority == old(x.authority) && x.position == old(x.position) && x.subject == old(x.subject) && x.region == old(x.region)
+//@   ensures  g.position == old(g.position) && g.subject == old(g.subject) && g.region == old(g.region)
+//@   # the transfer reports the previous holder with its previous authority, and the new holder
+//@   ensures  r.curr != old(r.curr) ==> t.From != nil && t.From.Subject == old(r.curr.subject) && t.From.Authority == old(r.curr.authority) && stateOf(r.curr, t.To)
+//@   ensures  r.curr == old(r.curr) && r.curr == g ==> t.From != nil && t.From.Subject == g.subject && t.From.Authority == old(g.authority) && stateOf(g, t.To)
+//@   ensures  r.curr == old(r.curr) && r.curr != g ==> t.From == nil && t.To == nil
+//@   modifies &r.curr, &g.authority
+//@   loop 0 modifies &r.curr
+//@   loop 0 invariant r.curr != nil && __in(r.gates, r.curr) && (r.curr == g || __seen(r.curr))
+//@   loop 0 invariant forall x *Gate[R] :: __seen(x) ==> lexle(x, r.curr)
+//@   loop 0 invariant lexle(g, r.curr)
+
+//@ func (g *Gate[R]) Authorize() (r R, err error)
+//@   tparams R Resource
+//@   requires g.region != nil && (g.region.curr == nil || g.region.controller != nil)
+//@   ensures  g.region.curr == nil ==> err != nil && __is(err, control.ErrUnauthorized)
+//@   ensures  g.region.curr != nil && g.region.controller.Concurrency == control.ConcurrencyExclusive ==> ((err == nil) == (g.region.curr == g))
+//@   ensures  g.region.curr != nil && g.region.controller.Concurrency != control.ConcurrencyExclusive ==> ((err == nil) == (g.authority >= g.region.curr.authority))
+//@   ensures  err != nil ==> __is(err, control.ErrUnauthorized)
+//@   ensures  err == nil ==> __eq(r, g.region.resource)
+//@   modifies nothing
